@@ -429,6 +429,19 @@ Definition full_statement (selfdep_sorted deinit_sorted py_phases_sorted py_tabl
   (forall h h' n e,
      fst (index_vars index_from_counter h n e) = fst (index_vars index_from_counter h' n e)).
 
+(* ------------------------------------------------------------------ iteration orders used by
+   the correspondence check: harness/c15.py hands the real code set objects that iterate in the
+   order `policy rev k sid s` (sorted, optionally reversed, rotated by k + len(sid)) *)
+
+Definition rot {A} (k : nat) (l : list A) : list A :=
+  match l with
+  | [] => []
+  | _ => let r := k mod List.length l in skipn r l ++ firstn r l
+  end.
+
+Definition policy (rev : bool) (k : nat) (sid : string) (s : list string) : list string :=
+  rot (k + String.length sid) (if rev then List.rev (ssort s) else ssort s).
+
 (* ------------------------------------------------------------------ decidable comparisons
    used by the correspondence check (harness/c15.py) *)
 
